@@ -172,6 +172,10 @@ def run(tier, seed):
             chk.absorb(m)
         elif rc != 0:
             raise core.Inconclusive("memcheck run failed rc=%d: %s" % (rc, outp[-500:]))
+    if tier == "thorough":
+        fdir = build.build("fuzz")
+        chk.absorb(core.run_fuzz(fdir + "/fuzz_tokener", PID, runs=1000000, seed=seed, jobs=16, max_len=512, dict_path="/repo/fuzz/tokener_parse_ex_fuzzer.dict"))
+        chk.extra["fuzz"] = "libFuzzer target fuzz_tokener (flags/depth/split point from the input; trichotomy, ledger, reset-vs-new compiled in), 16 jobs x 10^6 runs"
     produced = sorted(int(k.split(".")[1]) for k in chk.merged.counters if k.startswith("error_code."))
     missing = [c for c in range(1, 16) if c not in produced]
     chk.extra["error_codes_not_produced"] = missing
